@@ -498,7 +498,7 @@ func TestVerifC24(t *testing.T) {
 			runHist(id, vk.NewRand(vk.Mix(r.Seed, 0xC24, uint64(k))), true)
 		}
 	})
-	n := r.N(320, 24000)
+	n := r.N(320, 12800)
 	r.Cases("hist", n, func(i int, id string, rng *vk.Rand) {
 		runHist(id, rng, rng.Chance(1, 8))
 	})
@@ -514,7 +514,7 @@ func TestVerifC24Race(t *testing.T) {
 		scratch = os.TempDir()
 	}
 	r.Expect("conc:round", "conc:replica-caught-up", "conc:key-seen-by-several-goroutines")
-	n := r.N(24, 1200)
+	n := r.N(24, 960)
 	r.Cases("conc", n, func(ci int, id string, rng *vk.Rand) {
 		dir := filepath.Join(scratch, fmt.Sprintf("c24r-%d", rng.Uint64()))
 		os.MkdirAll(dir, 0o755)
